@@ -51,6 +51,19 @@ class PolicyDriver(Harness):
         assert p.login(self.s, K.CKU_USER, self.pin("P2")) == 0
         rv, self.wk_plain = p.create_object(self.s, wk)
         assert rv == 0
+        # the same pair as RSA public keys (CKM_RSA_PKCS / CKM_RSA_PKCS_OAEP wrap secret keys): trusted by the SO, and plain
+        from . import testkeys as TK
+        rk = [(K.CKA_CLASS, K.CKO_PUBLIC_KEY), (K.CKA_KEY_TYPE, K.CKK_RSA), (K.CKA_TOKEN, True), (K.CKA_PRIVATE, False),
+              (K.CKA_MODULUS, TK.RSA1024["n"]), (K.CKA_PUBLIC_EXPONENT, TK.RSA1024["e"]), (K.CKA_WRAP, True), (K.CKA_ENCRYPT, True)]
+        rv, self.rk_plain = p.create_object(self.s, rk)
+        assert rv == 0
+        p.logout(self.s)
+        assert p.login(self.s, K.CKU_SO, self.pin("P1")) == 0
+        rv, self.rk_trusted = p.create_object(self.s, rk + [(K.CKA_TRUSTED, True)])
+        assert rv == 0, rvname(rv)
+        p.logout(self.s)
+        assert p.login(self.s, K.CKU_USER, self.pin("P2")) == 0
+        self.nwrap = 0
         self.h = {}            # model id -> handle
         self.secrets = {}      # model id -> list of byte strings that must not leak while protected
         self.made = 0
@@ -307,7 +320,14 @@ class PolicyDriver(Harness):
         elif name == "MWrap":
             mech = K.CKM_AES_KEY_WRAP if self.cls in ("aes", "generic", "des3") else K.CKM_AES_KEY_WRAP_PAD
             wk = self.wk_trusted if a[1] else self.wk_plain
-            rv, blob, n = p.wrap_key(self.s, Mech(mech), wk, self.h.get(a[0], 0), bufsize=4096)
+            self.nwrap += 1
+            mm = Mech(mech)
+            if self.cls in ("aes", "generic", "des3") and self.nwrap % 3:
+                # secret keys: every wrapping mechanism family in turn (the rules do not depend on it)
+                from . import p11 as _p11
+                wk = self.rk_trusted if a[1] else self.rk_plain
+                mm = Mech(K.CKM_RSA_PKCS) if self.nwrap % 3 == 1 else Mech(K.CKM_RSA_PKCS_OAEP, _p11.oaep_params())
+            rv, blob, n = p.wrap_key(self.s, mm, wk, self.h.get(a[0], 0), bufsize=4096)
             ev.update(id=a[0], tr=a[1], leaks=self.leaks(a[0], blob or b""), yields=bool(blob))
         elif name == "MRelogin":
             p.logout(self.s)
